@@ -127,7 +127,7 @@ func init() {
 				if !ok {
 					panic("harness: mode object has no SetIV: " + o.mode)
 				}
-				iv := st.Hex("iv")
+				iv := st.HexMut("iv")
 				keep := append([]byte(nil), iv...)
 				sv.SetIV(iv)
 				// the caller may reuse its IV buffer afterwards
